@@ -94,6 +94,7 @@ const POOL_SIZES: [usize; 4] = [1, 2, 4, 16];
 const NS_K: &str = "http://k/";
 const NS_X: &str = "http://x.org/v/";
 const NS_H: &str = "http://h.org/ns#";
+const RDF_TYPE: &str = "http://www.w3.org/1999/02/22-rdf-syntax-ns#type";
 const PREFIXES: [(&str, &str); 3] = [("k", NS_K), ("x", NS_X), ("h", NS_H)];
 
 #[derive(Clone, Debug)]
@@ -127,6 +128,10 @@ impl TermGen {
         format!("{}e{}", self.ns(r), r.below(self.n_ent))
     }
     fn pred(&self, r: &mut Rng) -> String {
+        if r.chance(1, 10) {
+            // rdf:type: `a` in Turtle / N3, the rdf:type element in RDF/XML
+            return RDF_TYPE.to_string();
+        }
         format!("{}p{}", self.ns(r), r.below(self.n_pred))
     }
     fn object(&self, r: &mut Rng) -> String {
@@ -392,6 +397,13 @@ impl<'a> LineWriter<'a> {
         }
         true
     }
+    /// predicate position: rdf:type may be written `a` in Turtle and N3
+    fn pred_term(&mut self, t: &str, pn: bool) -> String {
+        if t == RDF_TYPE && matches!(self.fmt, Fmt::Turtle | Fmt::N3) && self.r.coin() {
+            return "a".to_string();
+        }
+        self.term(t, pn)
+    }
     fn term(&mut self, t: &str, pn: bool) -> String {
         if ds::is_iri(t) {
             if pn && self.r.chance(4, 5) {
@@ -435,7 +447,7 @@ impl<'a> LineWriter<'a> {
             Fmt::NTriples | Fmt::NQuads => {
                 let (s, p, o) = self.new_triple();
                 let g = self.graph();
-                let mut l = format!("{}{}{}{}{}", self.term(&s, false), self.sep(), self.term(&p, false), self.sep(), self.term(&o, false));
+                let mut l = format!("{}{}{}{}{}", self.term(&s, false), self.sep(), self.pred_term(&p, false), self.sep(), self.term(&o, false));
                 if let G::Named(n) = &g {
                     l.push_str(self.sep());
                     l.push_str(&format!("<{}>", n));
@@ -453,7 +465,7 @@ impl<'a> LineWriter<'a> {
                 let style = if style != Style::Flat && self.r.chance(1, 3) { Style::Flat } else { style };
                 let (s, p, o) = self.new_triple();
                 let mut idx = vec![self.quads.len()];
-                let mut text = format!("{}{}{}{}{}", self.term(&s, pn), self.sep(), self.term(&p, pn), self.sep(), self.term(&o, pn));
+                let mut text = format!("{}{}{}{}{}", self.term(&s, pn), self.sep(), self.pred_term(&p, pn), self.sep(), self.term(&o, pn));
                 self.quads.push((s.clone(), p.clone(), o, G::Default));
                 let mut out_lines: Vec<String> = vec![];
                 if style != Style::Flat {
@@ -473,11 +485,11 @@ impl<'a> LineWriter<'a> {
                                 // N3 statements may continue on the next physical line anywhere
                                 // between two tokens: break between predicate and object, so the
                                 // line ends without any punctuation
-                                text.push_str(&self.term(&pj, pn));
+                                text.push_str(&self.pred_term(&pj, pn));
                                 out_lines.push(std::mem::take(&mut text));
                                 text.push_str(&format!("        {}", self.term(&oj, pn)));
                             } else {
-                                text.push_str(&format!("{} {}", self.term(&pj, pn), self.term(&oj, pn)));
+                                text.push_str(&format!("{} {}", self.pred_term(&pj, pn), self.term(&oj, pn)));
                             }
                             idx.push(self.quads.len());
                             self.quads.push((s.clone(), pj.clone(), oj, G::Default));
@@ -572,7 +584,7 @@ fn gen_xml_doc(r: &mut Rng, o: &DocOpts, tg: &TermGen) -> Doc {
             } else {
                 (tg.pred(r), tg.object(r))
             };
-            let pn = pname(&p).expect("predicates are in a declared namespace");
+            let pn = if p == RDF_TYPE { "rdf:type".to_string() } else { pname(&p).expect("predicates are in a declared namespace") };
             if ds::is_iri(&ob) {
                 parts.push(format!("    <{} rdf:resource=\"{}\"/>", pn, ob));
             } else {
@@ -607,7 +619,7 @@ fn render_triples(r: &mut Rng, fmt: Fmt, triples: &[(String, String, String)], o
             parts.push(format!("<rdf:Description rdf:about=\"{}\">", s));
             let mut j = i;
             while j < triples.len() && &triples[j].0 == s && (j == i || o.style == Style::Grouped) {
-                let pn = pname(&triples[j].1).expect("declared namespace");
+                let pn = if triples[j].1 == RDF_TYPE { "rdf:type".to_string() } else { pname(&triples[j].1).expect("declared namespace") };
                 if ds::is_iri(&triples[j].2) {
                     parts.push(format!("<{} rdf:resource=\"{}\"/>", pn, triples[j].2));
                 } else {
@@ -654,7 +666,8 @@ fn render_triples(r: &mut Rng, fmt: Fmt, triples: &[(String, String, String)], o
                 lit_nt(x)
             }
         };
-        let l = format!("{} {} {} .", t(s, r), t(p, r), t(ob, r));
+        let pt = if p == RDF_TYPE && matches!(fmt, Fmt::Turtle | Fmt::N3) && r.coin() { "a".to_string() } else { t(p, r) };
+        let l = format!("{} {} {} .", t(s, r), pt, t(ob, r));
         stmts.push(Stmt { first: lines.len(), last: lines.len(), triples: vec![quads.len()] });
         quads.push((s.clone(), p.clone(), ob.clone(), G::Default));
         lines.push(l);
